@@ -226,7 +226,18 @@ func evalC15(c c15Case, o *Obs) error {
 				off[name] = [2]int{st, len(big)}
 				return big[st:len(big)]
 			}
-			ver := put("ver", src.Version[:])
+			verBytes := src.Version[:]
+			fixNet := -1
+			if op.I&1 != 0 && op.Net >= 0 && op.Net < len(nets) {
+				// the version bytes say the opposite of the private/public flag; SetNet puts that right before anybody looks
+				fixNet = op.Net
+				verBytes = nets[fixNet].Params.HDPublicKeyID[:]
+				if src.Priv == nil {
+					verBytes = nets[fixNet].Params.HDPrivateKeyID[:]
+				}
+				o.Class("C15:newext-version-contradicts-kind-then-setnet")
+			}
+			ver := put("ver", verBytes)
 			keyW := put("key", keyData)
 			chain := put("chain", src.Chain[:])
 			fp := put("fp", src.ParentFP[:])
@@ -235,6 +246,11 @@ func evalC15(c c15Case, o *Obs) error {
 			guards = append(guards, c15Guarded{buf: big, windows: off, idx: len(pool)})
 			k := hdkeychain.NewExtendedKey(ver, keyData, chain, fp, src.Depth, src.ChildNum, src.Priv != nil)
 			cp := *src
+			if fixNet >= 0 {
+				k.SetNet(nets[fixNet].Params)
+				cp = *cp.withNet(fixNet)
+				deepAll = true
+			}
 			pool = append(pool, &c15Entry{k: k, r: &cp, origin: fmt.Sprintf("NewExtendedKey(copy of #%d)@%d", a, step), rel: []int{a}})
 			pool[a].rel = append(pool[a].rel, len(pool)-1)
 		case "child":
@@ -424,7 +440,7 @@ func genC15(t *rapid.T) c15Case {
 		case 1, 2:
 			op.Op = "fromstring"
 		case 3:
-			op.Op = "newext"
+			op.Op, op.I, op.Net = "newext", uint32(rapid.IntRange(0, 3).Draw(t, "newextflags")), genNet(t)
 		case 4, 5, 6:
 			op.Op, op.I = "child", genIndex(t)
 		case 7, 8, 9, 10:
